@@ -153,9 +153,9 @@ type xfOutcome struct {
 
 type xfPeerHold struct {
 	slot int // the worker's in-flight slot (see xfInflight)
-	p   *xfPeer
-	cfg xfCfg
-	n   int // bytes moved through the held connection (its raw log grows with them)
+	p    *xfPeer
+	cfg  xfCfg
+	n    int // bytes moved through the held connection (its raw log grows with them)
 }
 
 // get returns the held peer if it belongs to cfg and can be reset for a new case.
@@ -360,11 +360,11 @@ func xfExec(cs xfCase, real *xfReal, srcDir string, hold *xfPeerHold) (out xfOut
 // ---------- expected request streams (no failures) ----------
 
 type xfWireExpect struct {
-	Typ       byte
-	Required  []xfChunk
-	Optional  func(xfChunk) bool
-	StatTyp   byte // 0: no stat request expected
-	PurePlan  bool // Required is exactly xfPlan(mp, off, len): comparable with the driver's xfer.plan
+	Typ      byte
+	Required []xfChunk
+	Optional func(xfChunk) bool
+	StatTyp  byte // 0: no stat request expected
+	PurePlan bool // Required is exactly xfPlan(mp, off, len): comparable with the driver's xfer.plan
 }
 
 // xfExpectWire states which READ/WRITE requests the transfer must put on the wire when the server
